@@ -212,6 +212,15 @@ def part_atmos(s):
     e = abs(a["re"] / (a["rho"] * a["v"] / a["mu"]) - 1)
     if not e <= 1e-9:
         bad("reynolds", "re=%.10g vs rho v/mu=%.10g" % (a["re"], a["rho"] * a["v"] / a["mu"]), e)
+    # same altitude, other Mach number, evaluated on the same live problem: v must follow (and so must re)
+    b = atm_eval(h, 0.5 * M + 0.05)
+    val += 2
+    e = abs(b["v"] - (0.5 * M + 0.05) * b["speed_of_sound"]) / b["speed_of_sound"]
+    if not e <= 1e-12:
+        bad("v_equals_M_a", "after changing only the Mach number: v=%.10g, M a=%.10g" % (b["v"], (0.5 * M + 0.05) * b["speed_of_sound"]), e)
+    e = abs(b["re"] / (b["rho"] * b["v"] / b["mu"]) - 1)
+    if not e <= 1e-9:
+        bad("reynolds", "after changing only the Mach number: re=%.10g vs rho v/mu=%.10g" % (b["re"], b["rho"] * b["v"] / b["mu"]), e)
     if -999 <= h <= 149999:
         lo, hi = atm_eval(h - 1.0, M), atm_eval(h + 1.0, M)
         for k, L in LIP.items():
@@ -224,4 +233,4 @@ def part_atmos(s):
             val += 1
             if not hi[k] < lo[k]:
                 bad("monotone", "%s does not decrease with altitude" % k, 1.0)
-    return dict(viol=viol, nontrivial=True, digest=digest_arrays(np.array(list(a.values()))), transitions=3, validated=val)
+    return dict(viol=viol, nontrivial=True, digest=digest_arrays(np.array(list(a.values()))), transitions=4, validated=val)
